@@ -302,10 +302,12 @@ var universe = []Obj{
 	I(two53), I(two53p), D("9007199254740992"),
 	// strings
 	Str("abc"), Str("ABC"), Str("Abc"), Str("abd"), Str(""), Str("1"),
+	// letters whose two cases differ in the number of UTF-8 bytes (capital sharp s, kelvin sign, long s, angstrom sign)
+	Str("straße"), Str("STRAẞE"), Str("k"), Str("\u212a"), Str("s"), Str("\u017f"), Str("å"), Str("\u212b"), L(Str("\u212a")), L(Str("k")),
 	// symbols
 	Sym("abc"), Sym("ABC"), Sym(":abc"), Sym("abd"),
 	// characters
-	Chr("a"), Chr("A"), Chr("b"), Chr("1"),
+	Chr("a"), Chr("A"), Chr("b"), Chr("1"), Chr("k"), Chr("\u212a"), Chr("ß"), Chr("ẞ"),
 	// lists
 	L(I("1"), I("2")), L(D("1"), I("2")), L(I("1"), Str("a")), L(I("1"), Str("A")),
 	L(I("1"), Chr("a")), L(I("1"), Chr("A")), L(L(I("1"), I("2")), Str("x")), L(L(I("1"), I("2")), Str("X")),
@@ -343,9 +345,9 @@ var (
 	poolDf  = []string{"0", "-0", "1", "2", "3", "0.5", "1.5", "-1", "0.1", "0.3333333333333333", "16777216", "9007199254740992", "18446744073709551616", "9.223372036854775808e18"}
 	poolSf  = []string{"0", "1", "2", "0.5", "1.5", "0.1", "0.33333334", "16777216", "18446744073709551616"}
 	poolRat = []string{"1/2", "1/3", "3/2", "1/1", "2/1", "1/10", "-1/2", "18446744073709551616/3"}
-	poolStr = []string{"", "a", "A", "abc", "ABC", "Abc", "abd", "1", "é", "É"}
+	poolStr = []string{"", "a", "A", "abc", "ABC", "Abc", "abd", "1", "é", "É", "ß", "ẞ", "k", "\u212a", "\u017f"}
 	poolSym = []string{"a", "A", "abc", "ABC", ":abc", ":ABC", "b", "abd"}
-	poolChr = []string{"a", "A", "b", "1", " ", "é", "É"}
+	poolChr = []string{"a", "A", "b", "1", " ", "é", "É", "ß", "ẞ", "k", "\u212a"}
 )
 
 func genLeaf(rt *rapid.T, label string) Obj {
